@@ -123,7 +123,10 @@ func HostileSweep(run *ev.Run, backend string) {
 			}
 		}
 		for _, coll := range []string{"a", "zz"} {
-			for _, c := range crits {
+			for ci, c := range crits {
+				if coll == "zz" && ci%4 != 0 {
+					continue // on the missing collection every fourth criteria shape is enough: the calls fail before evaluating it
+				}
 				for _, s := range shapes {
 					q := s.Apply(coll, c)
 					for _, k := range []string{"findAll", "count", "exists", "findFirst"} {
